@@ -72,3 +72,20 @@ CHECKS["C05"] = {
         {"name": "httpserver", "pkg": "pkg/object/httpserver", "test": "TestVerifC05mux", "inject": [HTTPRIG]},
     ],
 }
+
+CHECKS["C02"] = {
+    "level": "exploration",
+    "technique": "deviation-bounded exhaustive enumeration (choice-tree DFS) of pipeline specs x filter result vectors against a reference validity predicate and interpreter",
+    "level_text": "every flow within the node/deviation bound (aliases, namespaces, jumpIf entries incl. END / backward / unknown / ambiguous targets and undeclared results, "
+                  "END nodes, duplicate and reserved filter names, empty flow) is validated through supervisor.NewSpec and compared with the reference predicate; every accepted flow is "
+                  "executed on the real Pipeline for every vector of filter results and compared with the reference interpreter (invocation order, namespace, result, stats names); "
+                  "before/main/after triples through HandleWithBeforeAfter and GlobalFilter.Handle",
+    "level_note": "finite alphabet (filters f1,f2 of a test kind with results r1,r2); deviation = a non-default alias/namespace/jump entry/filter list; reference = DESIGN A.2",
+    "rule": "choice tree: filter list, flow length, per node filter/alias/namespace/jump targets, then the result of every filter invocation; "
+            "distinct_nontrivial = distinct (number of filters run, ended?, last result | rejected) classes",
+    "bounds": {"quick": "<=3 nodes & <=2 deviations; triples of <=2-node flows & <=1 deviation", "thorough": "<=3 nodes & <=3 deviations, <=4 nodes & <=2 deviations; triples & <=2 deviations"},
+    "assumptions": [],
+    "units": [
+        {"name": "pipeline", "pkg": "pkg/object/pipeline", "test": "TestVerifC02"},
+    ],
+}
